@@ -183,6 +183,7 @@ theorem stepMapOp_inv (other : Nat → Raw K V) (hother : ∀ o, Inv E (other o)
     two `unsafe fn`s (`insert_unchecked`, `get_disjoint_unchecked_mut`). -/
 def Op.safeApi : Op K V Q → Bool
   | .map _ op => op.safeApi
+  | .umap _ op => op.safeApi
   | _ => true
 
 theorem resInv_rewrap {α : Type} {r : Res (Sys K V Q) α} (h : ResInv E r) :
@@ -264,6 +265,17 @@ theorem stepCore_inv {sys : Sys K V Q} (hs : SysInv E sys) (op : Op K V Q) (hop 
       generalize hr : runOnSet sys reg _ = r
       have h : ResInv E r := hr ▸ runOnSet_inv E (stepSetOp_inv E.toUnit R.toUnit sys.sets hs.2 _) hs reg
       cases r <;> exact h
+  | umap reg uop =>
+    have huop : uop.safeApi = true := hop
+    cases uop with
+    | clone_to d => exact hs
+    | from_iter p xs => exact hs
+    | serde d => exact hs
+    | _ =>
+      simp only [stepCore]
+      generalize hr : runOnSet sys reg _ = r
+      have h : ResInv E r := hr ▸ runOnSet_inv E (stepMapOp_inv E.toUnit R.toUnit sys.sets hs.2 _ huop) hs reg
+      cases r <;> exact h
   | inject j => exact hs
   | endCase => exact hs
 
@@ -332,6 +344,14 @@ theorem step_inv {sys : Sys K V Q} (hs : SysInv E sys) (op : Op K V Q) (hop : op
     unfold ResInv at h
     simp only
     cases hr : stepCore E R _ (Op.set reg sop) with
+    | ok a s => rw [hr] at h; exact ⟨by simp, h⟩
+    | panic c s => rw [hr] at h; exact ⟨by simp, h⟩
+    | ub => rw [hr] at h; exact h.elim
+  | umap reg uop =>
+    have h := stepCore_inv E R (sys := { sys with w := { sys.w with events := [] } }) hs (.umap reg uop) hop
+    unfold ResInv at h
+    simp only
+    cases hr : stepCore E R _ (Op.umap reg uop) with
     | ok a s => rw [hr] at h; exact ⟨by simp, h⟩
     | panic c s => rw [hr] at h; exact ⟨by simp, h⟩
     | ub => rw [hr] at h; exact h.elim
